@@ -1749,7 +1749,15 @@ def fam_threads(case, ctx, rng):
     for rep in range(2):
         mode = rng.choice(["site", "branch"])
         span_normalise = rng.random() < 0.5
-        windows = None if rng.random() < 0.4 else rand_windows(rng, ref, allow_special=rng.random() < 0.3)
+        partial = rng.random() < 0.35
+        if partial:
+            # windows that do not span the sequence, very often a SINGLE partial window: the threaded dispatch chooses
+            # between chunking by tree and by window from the window specification
+            windows = rand_partial_windows(rng, ref)
+            if rng.random() < 0.6:
+                windows = windows[:2]
+        else:
+            windows = None if rng.random() < 0.4 else rand_windows(rng, ref, allow_special=rng.random() < 0.3)
         arg, sets = rand_matrix_sets(rng, ref)
         exp = ref.divergence_matrix(sets, windows, mode, span_normalise)
         if windows is None:
@@ -1759,7 +1767,7 @@ def fam_threads(case, ctx, rng):
         base = {}
         for nt in THREAD_COUNTS:
             for meth in ("divergence_matrix", "genetic_relatedness_matrix"):
-                if meth == "genetic_relatedness_matrix" and not listarg:
+                if meth == "genetic_relatedness_matrix" and (not listarg or partial):
                     continue
                 what = (f"{meth}(sample_sets={arg}, windows={windows}, mode={mode}, span_normalise={span_normalise}, "
                         f"num_threads={nt})")
